@@ -186,7 +186,9 @@ class Flow:
         self.hw_bounds = (1, 2 ** 31 - 1)        # assumption: the platform reports a positive processor count that fits int
 
     # ------------------------------------------------------------------ bounds / truth
-    def bounds(self, s, atom):
+    def bounds(self, s, atom, exact_div=False):
+        """exact_div: the caller has established that no arithmetic in the expression can wrap in state s, so (c*a)/a may be
+        read over the integers"""
         b = s.get(('fact', atom))
         if b is not None:
             return b
@@ -204,6 +206,13 @@ class Flow:
                 (alo, ahi), (blo, bhi) = (x.range(lambda a: self.bounds(s, a)) for x in atom[1:])
                 f = min if atom[0] == 'min' else max
                 return (f(alo, blo), f(ahi, bhi))
+            if exact_div and atom[0] == 'div' and len(atom) == 3 and isinstance(atom[1], Poly) and isinstance(atom[2], Poly):
+                da = atom[2].as_atom()
+                if da is not None:
+                    lin = atom[1].linear_in(da)
+                    dlo, dhi = self.bounds(s, da)
+                    if lin is not None and lin[1].as_int() == 0 and lin[0].denominator == 1 and (dlo > 0 or dhi < 0):
+                        return (lin[0], lin[0])         # (c*a) / a == c for a != 0 (over the integers; wrapping is handled apart)
             if atom[0] == 'mod' and len(atom) == 3:
                 c = atom[2].as_int() if isinstance(atom[2], Poly) else None
                 lo, _hi = atom[1].range(lambda a: self.bounds(s, a)) if isinstance(atom[1], Poly) else (-INF, INF)
@@ -225,7 +234,14 @@ class Flow:
         return nnf(_Norm(self, s, fr).cond(n))
 
     def truth(self, n, s, fr):
-        return decide_bool(self.condnf(n, s, fr), lambda a: self.bounds(s, a))
+        b = self.condnf(n, s, fr)
+        ws = self.wrap_sites(n, s, fr)
+        if ws:
+            b = self.explain_wrap_tests(b, ws, s, fr, n)
+            if b is None:
+                return None         # computed from a wrapped value in a way that has no exact reading
+            return decide_bool(b, lambda a: self.bounds(s, a))
+        return decide_bool(b, lambda a: self.bounds(s, a, exact_div=True))
 
     def val(self, n, s, fr):
         nm = _Norm(self, s, fr)
@@ -531,6 +547,15 @@ class Flow:
             c = ks[1]
         ws = self.wrap_sites(c, s, fr)
         if ws:
+            b2 = self.explain_wrap_tests(self.condnf(c, s, fr), ws, s, fr, c)
+            if b2 is not None:
+                # the only use of the wrapping product is the classic after-the-fact test (a*b)/a op b: read it exactly
+                want = (si == 0)
+                t = decide_bool(b2, lambda a: self.bounds(s, a))
+                if t is not None:
+                    return [s] if t == want else []
+                return self.add_facts(b2, want, s, fr, c)
+        if ws:
             # the comparison is computed with unsigned arithmetic that can wrap here: its mathematical reading is not the
             # C++ one, so nothing is learnt from it (both outcomes stay possible) and the path becomes approximate
             return [s.approx('condition `%s` at %s uses unsigned arithmetic that can wrap (`%s`)'
@@ -538,10 +563,134 @@ class Flow:
                     .event(('wrap-in-condition', ws[0][1], fr.tu.loc(c), fr.tu.show(c)))]
         b = self.condnf(c, s, fr)
         want = (si == 0)
-        t = decide_bool(b, lambda a: self.bounds(s, a))
+        t = decide_bool(b, lambda a: self.bounds(s, a, exact_div=True))     # no wrap site in c under the facts of s
         if t is not None:
             return [s] if t == want else []
         return self.add_facts(b, want, s, fr, c)
+
+    def explain_wrap_tests(self, nf, ws, s, fr, cond_node=None):
+        """`nf` is the (mathematically read) normal form of a condition that contains unsigned products which can wrap (`ws`).
+        If every such product R = a*b (b a positive constant, a one value) occurs only as  R / a  compared with a constant,
+        the comparison has an exact meaning in modular arithmetic: the quotient is b when a*b did not wrap and lies in
+        [0, b-1] when it did (a != 0).  Returns the normal form with those comparisons replaced by their exact reading
+        (`a*b > TYPE_MAX`, its negation, or a constant), or None if some wrapping value is used in any other way."""
+        tu = fr.tu
+        if cond_node is None or not self.wrap_uses_are_quotients(cond_node, ws, s, fr):
+            return None
+        sites = {}
+        for node, _text in ws:
+            tr = type_range(tu.sd(node).get('ct'))
+            if tr is None or tr[0] != 0:
+                return None
+            R = _Norm(self, s, fr).poly(node)
+            ats = R.atoms(deep=False)
+            if len(ats) != 1:
+                return None
+            lin = R.linear_in(ats[0])
+            if lin is None or lin[1].as_int() != 0 or lin[0] <= 0 or lin[0].denominator != 1:
+                return None
+            sites[R] = (Poly.atom(ats[0]), int(lin[0]), tr[1])
+        ok = [True]
+
+        def rewrite(b):
+            tag = b[0]
+            if tag in ('and', 'or'):
+                return (tag, rewrite(b[1]), rewrite(b[2]))
+            if tag == 'not':
+                return ('not', rewrite(b[1]))
+            if tag != 'rel':
+                return b
+            r = b[1]
+            for R, (a, bc, tmax) in sites.items():
+                D = Poly.op('div', R, a).as_atom()
+                sa = r.single_atom()
+                if sa is not None and sa[0] == D:
+                    _, k, c = sa
+
+                    def holds(lo, hi, k=k, c=c, op=r.op):
+                        vals = sorted((k * lo + c, k * hi + c))
+                        if op == '>=':
+                            return True if vals[0] >= 0 else False if vals[1] < 0 else None
+                        if op == '==':
+                            return True if vals[0] == vals[1] == 0 else False if (vals[0] > 0 or vals[1] < 0) else None
+                        return False if vals[0] == vals[1] == 0 else True if (vals[0] > 0 or vals[1] < 0) else None
+                    t0, t1 = holds(bc, bc), holds(0, bc - 1)
+                    if t0 is None or t1 is None:
+                        ok[0] = False
+                        return b
+                    wrapped = Rel.make(R, '>', tmax)
+                    if t0 == t1:
+                        return ('const', t0)
+                    return ('rel', wrapped if t1 else wrapped.negate())
+                if D in r.p.atoms(deep=True):
+                    ok[0] = False       # the quotient is combined with something else: no exact reading
+            return b
+        out = nnf(rewrite(nf))
+        return out if ok[0] else None
+
+    def wrap_uses_are_quotients(self, cond, ws, s, fr):
+        """AST check for explain_wrap_tests: inside the condition `cond` (following the initialisers of the locals it reads)
+        every use of a wrapping product W = a*b - directly or through a local initialised with exactly W - is the dividend of
+        `W / a`, and that quotient is compared with a constant."""
+        tu = fr.tu
+        wnodes = {n['id'] for n, _ in ws}
+        skip = ('ImplicitCastExpr', 'ParenExpr', 'CStyleCastExpr', 'CXXStaticCastExpr', 'CXXFunctionalCastExpr', 'ExprWithCleanups',
+                'MaterializeTemporaryExpr')
+
+        def up(n):
+            p = tu.par(n)
+            while p is not None and p.get('kind') in skip:
+                n, p = p, tu.par(p)
+            return n, p
+
+        def divisor_ok(w, div):
+            # the divisor must be the non-constant factor of the product
+            R = _Norm(self, s, fr).poly(w)
+            ats = R.atoms(deep=False)
+            return len(ats) == 1 and self.val(div, s, fr) == Poly.atom(ats[0])
+
+        def context_ok(y, w):
+            top, p = up(y)
+            if p is None or p.get('kind') != 'BinaryOperator' or p.get('opcode') != '/':
+                return False
+            ks = tu.kids(p)
+            if ks[0].get('id') != top.get('id') or not divisor_ok(w, ks[1]):
+                return False
+            qtop, gp = up(p)
+            if gp is None or gp.get('kind') != 'BinaryOperator' or gp.get('opcode') not in ('==', '!=', '<', '<=', '>', '>='):
+                return False
+            other = [k for k in tu.kids(gp) if k.get('id') != qtop.get('id')]
+            return len(other) == 1 and self.val(other[0], s, fr).as_int() is not None
+
+        carriers = {}           # decl id of a local whose initialiser is exactly a wrapping product -> that product node
+        todo, seen, roots = [cond], set(), []
+        while todo and len(seen) < 40:
+            x = todo.pop()
+            if x is None or x['id'] in seen:
+                continue
+            seen.add(x['id'])
+            roots.append(x)
+            for y in tu.walk(x):
+                if y.get('kind') == 'DeclRefExpr':
+                    did = y.get('referencedDecl', {}).get('id')
+                    iid = s.get(('init', fr.key, did))
+                    if iid is not None:
+                        init = tu.node(iid)
+                        st = tu.strip(init, casts=True) if init is not None else None
+                        if st is not None and st.get('id') in wnodes:
+                            carriers[did] = st
+                        else:
+                            todo.append(init)
+        by_id = {n['id']: n for n, _ in ws}
+        for x in roots:
+            for y in tu.walk(x):
+                if y.get('id') in wnodes:
+                    if not context_ok(y, by_id[y['id']]):
+                        return False
+                elif y.get('kind') == 'DeclRefExpr' and y.get('referencedDecl', {}).get('id') in carriers:
+                    if not context_ok(y, carriers[y['referencedDecl']['id']]):
+                        return False
+        return True
 
     def tracked(self, s, poly_or_nf):
         """does the value mention an atom that carries a fact in s?"""
@@ -604,6 +753,13 @@ class Flow:
                 return self.add_facts(b[2], want, s, fr, node)
             if y is not None and y != want:
                 return self.add_facts(b[1], want, s, fr, node)
+            # absorption: if one operand having the value (not want) forces the other to have it too, the whole expression is
+            # equivalent to that operand   (A && B with B => A is B;  A || B with A => B is B)
+            for u, v in ((b[1], b[2]), (b[2], b[1])):
+                sts = self.add_facts(u, not want, s, fr, node)
+                if sts and all(not st.get('approx', ()) or st.get('approx', ()) == s.get('approx', ()) for st in sts) and \
+                        all(decide_bool(v, lambda a, st=st: self.bounds(st, a)) == (not want) for st in sts):
+                    return self.add_facts(u, want, s, fr, node)
             if self.tracked(s, b):
                 return [s.approx('disjunctive condition `%s` at %s' % (fr.tu.show(node), fr.tu.loc(node)))]
             return [s]
